@@ -34,7 +34,7 @@ UF_VOCAB = [
     V(r"\brank\[(\w+)\]", r"UF_RK(\1)"),
 ]
 
-UF_GHOSTS = "__CPROVER_requires(UG < UF_N && UG2 < UF_N && UF_INV(UG) && UF_INV(UG2))\n"
+UF_GHOSTS = "__CPROVER_requires(UG < UF_N && UF_INV(UG))\n"
 
 uf_find = Unit(
     name="uf_find", file=UF_H, anchor=r"\bT find\(T x\)",
@@ -51,7 +51,7 @@ __CPROVER_ensures(__CPROVER_return_value == UF_ROOT(x))
 __CPROVER_ensures(__CPROVER_return_value < UF_N && UF_P(__CPROVER_return_value) == __CPROVER_return_value)
 /* ... and leaves the partition unchanged: the same ROOT still satisfies the representation invariant at every element
  * (ghost elements UG, UG2; caller-chosen witnesses w1, w2) */
-__CPROVER_ensures(UF_INV(UG) && UF_INV(UG2))
+__CPROVER_ensures(UF_INV(UG))
 /* path compression never re-parents a fixed point (stated at the witnesses) */
 __CPROVER_ensures(__CPROVER_old(UF_P(w1)) == w1 ==> UF_P(w1) == w1)
 __CPROVER_ensures(__CPROVER_old(UF_P(w2)) == w2 ==> UF_P(w2) == w2)
@@ -66,7 +66,7 @@ __CPROVER_decreases(UF_DEPTH(c))
 __CPROVER_assigns(x, __CPROVER_object_whole(uf_parent))
 __CPROVER_loop_invariant(x < UF_N && c < UF_N && UF_ROOT(x) == c)
 __CPROVER_loop_invariant(UF_P(c) == c && UF_ROOT(c) == c && UF_DEPTH(c) == 0)
-__CPROVER_loop_invariant(UF_INV(UG) && UF_INV(UG2))
+__CPROVER_loop_invariant(UF_INV(UG))
 __CPROVER_loop_invariant(__CPROVER_loop_entry(UF_P(w1)) == w1 ==> UF_P(w1) == w1)
 __CPROVER_loop_invariant(__CPROVER_loop_entry(UF_P(w2)) == w2 ==> UF_P(w2) == w2)
 __CPROVER_decreases(UF_DEPTH(x))
@@ -94,7 +94,7 @@ void h_%(fn)s(void)
 G_UF_FIND = Group(
     name="basin.uf.find", units=[uf_find], extra_c=[MODEL_H],
     harness=_h("uf_find", "size_t r = uf_find(UF_ARGS, nondet_size_t(), nondet_size_t(), nondet_size_t())"),
-    entry="h_uf_find", enforce="uf_find", loop_contracts=True, backend="sat", timeout=600, min_obligations=30,
+    entry="h_uf_find", enforce="uf_find", loop_contracts=True, backend="cvc5", timeout=600, min_obligations=30,
     clause="union_find::find terminates (DEPTH decreases), returns the class representative, and path compression leaves the "
            "abstract partition (ROOT) and the representation invariant intact")
 
